@@ -565,6 +565,32 @@ func c03e(c *Ctx) {
 		for _, st := range storesToField(fn, "ast", "SwitchStatement", "Cases") {
 			if call, ok := st.Val.(*ssa.Call); ok && calleeName(call) == "builtin:append" {
 				appends = append(appends, call)
+				continue
+			}
+			// a list gathered in a local and stored at the end: the appends that feed it
+			var leaves []ssa.Value
+			seenL := map[ssa.Value]bool{}
+			var gather func(v ssa.Value)
+			gather = func(v ssa.Value) {
+				if seenL[v] {
+					return
+				}
+				seenL[v] = true
+				switch x := v.(type) {
+				case *ssa.Phi:
+					for _, e := range x.Edges {
+						gather(e)
+					}
+				case *ssa.Call:
+					if calleeName(x) == "builtin:append" {
+						leaves = append(leaves, x)
+						gather(x.Call.Args[0])
+					}
+				}
+			}
+			gather(st.Val)
+			for _, lf := range leaves {
+				appends = append(appends, lf.(*ssa.Call))
 			}
 		}
 		// ... or a helper that does the appending (`addCase(statement, c)`)
